@@ -92,9 +92,9 @@ fn non_call_fault(kind: &str) -> Expr {
 fn bury(ch: &mut Chooser, e: Expr, tail_preserving: bool, derived: bool) -> Expr {
     let mut cur = e;
     for _ in 0..ch.below(3) {
-        let pick = ch.below(if tail_preserving { 7 } else { 9 });
+        let pick = ch.below(if tail_preserving { 7 } else { 10 });
         // without derived forms only `if` and operand wrappers are used
-        let pick = if !derived && (1..=6).contains(&pick) { if tail_preserving { 0 } else { 7 + pick % 2 } } else { pick };
+        let pick = if !derived && ((1..=6).contains(&pick) || pick == 9) { if tail_preserving { 0 } else { 7 + pick % 2 } } else { pick };
         cur = match pick {
             0 => Expr::If(Box::new(Expr::Bool(true)), Box::new(cur), Some(Box::new(Expr::Int(0)))),
             1 => Expr::Let(vec![("bq".into(), Expr::Int(1))], body1(cur)),
@@ -104,6 +104,10 @@ fn bury(ch: &mut Chooser, e: Expr, tail_preserving: bool, derived: bool) -> Expr
             4 => Expr::And(vec![Expr::Bool(true), Expr::Int(1), cur]),
             5 => Expr::Or(vec![Expr::Bool(false), cur]),
             6 => Expr::Cond(vec![Clause::Then(Expr::Bool(false), vec![Expr::Int(1)]), Clause::Test(cur)], None),
+            // the key of a case that has nothing but an else clause
+            // (a compound key only: the r7rs reference definition of case does not mention an atomic key in this rule)
+            9 if !matches!(&cur, Expr::Var(_) | Expr::Marked(_)) => Expr::Case(Box::new(cur), vec![], Some(CaseBody::Exprs(vec![Expr::Quote(Datum::Sym("fallback".into()))]))),
+            9 => app("car", vec![app("list", vec![cur])]),
             7 => app("car", vec![app("list", vec![cur])]),
             _ => app("+", vec![Expr::Int(1), app("car", vec![app("list", vec![cur, Expr::Int(2)])])]),
         };
